@@ -364,7 +364,7 @@ func runRaceInProc(kv map[string]string) string {
 		t.refuse() // every shot fails (the gRPC guns' start-up reflection is a stream and still answered)
 	}
 	if kv["agg"] == "phout" {
-		res := c11lib.RunEngine(y, nil, 60*time.Second)
+		res := c11lib.RunEngine(y, nil, 100*time.Second)
 		var size int64
 		if m := phoutDest.FindStringSubmatch(y); m != nil {
 			if st, err := c11lib.FS.Stat(m[1]); err == nil {
@@ -374,7 +374,7 @@ func runRaceInProc(kv map[string]string) string {
 		return fmt.Sprintf("run=%s served=%s samples=%s", orDash(res), pos(t.served()), pos(size))
 	}
 	aggr := &c11lib.Aggr{}
-	res := c11lib.RunEngine(y, aggr, 60*time.Second)
+	res := c11lib.RunEngine(y, aggr, 100*time.Second)
 	return fmt.Sprintf("run=%s served=%s samples=%s", orDash(res), pos(t.served()), pos(aggr.Count()))
 }
 
@@ -936,6 +936,11 @@ func wrapCases(r *rand.Rand, rounds int) []string {
 
 // raceVariant: one whole-pool case with a random supported variant of the kind.
 func raceVariant(r *rand.Rand, k string, n, shots int) string {
+	// round 4: a scenario shot is three serialised calls; few instances with thousands of shots ran into the engine's
+	// time limit on a loaded machine (an inconclusive `run=timeout`, reported as a mismatch): at most 250 shots per instance
+	if (k == "grpcscen" || k == "httpscen") && shots > 250*n {
+		shots = 250 * n
+	}
 	c := fmt.Sprintf("mode=race kind=%s n=%d shots=%d", k, n, shots)
 	if r.Intn(3) == 0 {
 		c += " go=" + gunOptLetters(r, k)
